@@ -240,6 +240,7 @@ impl Partition {
     { unimplemented!() }
 
     // partitions/segments.rs (other subsystem): creates and registers a segment; assumed not to touch offsets
+    // LINKED (every clause but the fault-scope `r is Ok`): units/wiring/lemmas.rs, harness [C16.link.consumer_offsets.add_persisted_segment] (mirror edits there)
     #[verifier::external_body]
     pub fn add_persisted_segment(&mut self, start_offset: u64) -> (r: Result<(), IggyError>)
         ensures r is Ok,
@@ -259,6 +260,7 @@ pub uninterp spec fn le_u32(v: Seq<u8>) -> u32;          // u32::from_le_bytes
 pub mod hash {
     use super::*;
     pub uninterp spec fn hash32(data: Seq<u8>) -> u32;   // XxHash32::oneshot(0, data)
+    // LINKED: units/partitioning/lemmas.rs, harness [C17.link.consumer_offsets.calculate_32] (the real streaming::utils::hash::calculate_32; mirror edits there)
     #[verifier::external_body]
     pub fn calculate_32(data: &[u8]) -> (r: u32)
         ensures r == hash32(data@),
@@ -292,6 +294,8 @@ pub struct GroupMembers { x: u8 }
 pub uninterp spec fn topic_group(t: &Topic, id: Identifier) -> Option<ConsumerGroup>;
 pub uninterp spec fn cg_current(g: &ConsumerGroup, member_id: u32) -> Result<Option<u32>, IggyError>;
 impl Topic {
+    // LINKED (first and last clause; the Err arm was `final(self).partitions == old(self).partitions`, weakened to the views: what the real function over the
+    // lock-map stand-in proves): units/topic_limit/lemmas.rs, harness [C15.link.consumer_offsets.get_partition] (mirror edits there)
     #[verifier::external_body]
     pub fn get_partition(&mut self, partition_id: u32) -> (r: Result<&mut Partition, IggyError>)
         ensures
